@@ -1,5 +1,6 @@
 SPECIFICATION GSpec
-CONSTANTS Cases <- GThorough
+CONSTANTS Devs = {}
+          Cases <- GThorough
           GF = 4
           FPKeys = {}
 INVARIANTS Emit1 StackIsRecursive EmitSafe EmitOnce NoFalseNegative CountRight
